@@ -2,6 +2,8 @@
 non-triviality rule, assumptions, the evidence level and the minimum-reach counters
 (prefixes of harness counters that must be non-zero for a run to count as 'held')."""
 
+BOUNDARY = " One graph case in ten is a boundary shape: node counts around 20/21, 32, 64, 128 (where the caller's range allows), hubs with 63..129 (fan-in) neighbours and second-level nodes, 31..34 parallel edges on one pair, random weights of a common extreme magnitude (1e-140..1e140), weights restricted to two values; multigraph cases regularly carry three or more parallel edges on one pair, directed cases are sometimes fully reciprocated, exact-class weights sometimes sum to the edge count; every graph is built with one Arc per distinct edge (identical edges share it) and a third of its nodes is re-added after the edges."
+
 COMMON = [
     "verdict = held on the executions observed, nothing more (runtime monitoring)",
     "the reference model / definition oracles in /verif/harness/src are correct",
@@ -11,58 +13,58 @@ COMMON = [
 PROPS = {
     "C01": {
         "level": "exploration",
-        "rule": "96 GraphSpecs x seeded mutation histories (add_node/add_nodes/add_edge/add_edge_tuple/add_edges/add_edge_tuples, 1..20 (quick) or 1..40 (thorough) ops over 2-6 names whose sort order differs from insertion order; weights all-NaN, all-real or wild) run in lock-step with the reference Model, plus the same nodes/edges through new_from_nodes_and_edges. A history is non-trivial iff it exercised at least one policy branch (self-loop stored/dropped/rejected, node created/rejected, duplicate appended/rejected/ignored/replaced, node re-add, failing batch); distinct = distinct (specs, history) hashes.",
+        "rule": "96 GraphSpecs x seeded mutation histories (add_node/add_nodes/add_edge/add_edge_tuple/add_edges/add_edge_tuples, 1..20 (quick) or 1..40 (thorough) ops over 2-6 names whose sort order differs from insertion order; weights all-NaN, all-real or wild; one history in 25 contains a batch of 64..70 edges; in half of the histories an identical edge is handed over as the very same Arc again) run in lock-step with the reference Model, plus the same nodes/edges through new_from_nodes_and_edges. A history is non-trivial iff it exercised at least one policy branch (self-loop stored/dropped/rejected, node created/rejected, duplicate appended/rejected/ignored/replaced, node re-add, failing batch); distinct = distinct (specs, history) hashes.",
         "assumptions": COMMON + ["where the statement leaves an outcome open (self-loop on an unknown node) either order of checks is accepted (DESIGN 2.2 ambiguity sets)"],
-        "min_reach": {"any": ["branch:D:selfloop:stored", "branch:D:selfloop:dropped", "branch:D:selfloop:rejected", "branch:U:duplicate:replaced:opposite-orientation", "branch:U:duplicate:ignored:opposite-orientation", "branch:D:duplicate:appended", "branch:D:missing-node:created", "branch:U:missing-node:rejected", "branch:node-readd", "branch:failing-batch-with-nonempty-prefix", "checked:failed-call-left-graph-unchanged", "checked:ignored-call-left-graph-unchanged"]},
+        "min_reach": {"any": ["branch:D:selfloop:stored", "branch:D:selfloop:dropped", "branch:D:selfloop:rejected", "branch:U:duplicate:replaced:opposite-orientation", "branch:U:duplicate:ignored:opposite-orientation", "branch:D:duplicate:appended", "branch:D:missing-node:created", "branch:U:missing-node:rejected", "branch:node-readd", "branch:failing-batch-with-nonempty-prefix", "checked:failed-call-left-graph-unchanged", "checked:ignored-call-left-graph-unchanged", "reach:same-arc-passed-again"]},
     },
     "C02": {
         "level": "exploration",
         "rule": "96 GraphSpecs x seeded histories; every 4th op and at the end every read query (all ordered pairs and all subsets of <=3 names of the universe + one absent name) is compared with the answer computed from the Model's node list and edge multiset, and the feature-guarded snapshot of the private indexes is checked for mutual consistency (I1 node indexes, I2 name-keyed vs position-keyed edge store, I3 adjacency sets, I5 lengths). Non-trivial = final graph has >=2 nodes and >=1 edge; distinct = distinct (specs, history) hashes.",
         "assumptions": COMMON + ["hook: Graph::verif_snapshot() (feature verif-hooks) is a faithful read-only copy of the private fields", "when two refusals apply at once either error kind is accepted"],
-        "min_reach": {"any": ["reach:undirected-edge-with-name-order-differing-from-position-order", "reach:undirected-pair-query-against-name-order", "reach:pair-with-3-or-more-parallel-edges", "guard:get_edge-on-multi", "guard:get_edges-on-single", "guard:in-out-edges-on-undirected", "guard:succ-pred-on-undirected"]},
+        "min_reach": {"any": ["reach:undirected-edge-with-name-order-differing-from-position-order", "reach:undirected-pair-query-against-name-order", "reach:pair-with-3-or-more-parallel-edges", "guard:get_edge-on-multi", "guard:get_edges-on-single", "guard:in-out-edges-on-undirected", "guard:succ-pred-on-undirected", "reach:graph-with-more-than-16-nodes", "reach:node-list-with-repeated-names"]},
     },
     "C03": {
         "level": "exploration",
-        "rule": "96 GraphSpecs x seeded histories over uniformly weighted (exact multiples of 0.25) or uniformly unweighted edges with forced 'second edge, smaller / larger weight' steps in both orientations; after EVERY op the traversal lists (successors_vec / predecessors_vec) in the snapshot must equal the Model's min-weight adjacency and the neighbour sets by name and by position must equal the stored edge relation; at the end dijkstra::single_source from every node (and betweenness/closeness on every 3rd history) must equal the oracle fed with get_all_edges() only. Non-trivial = history added a second edge to an existing pair; distinct = distinct (specs, history) hashes.",
+        "rule": "96 GraphSpecs x seeded histories over uniformly weighted (exact multiples of 0.25, or - one history in 8 - decimal / 1e-20-scale weights one or two ulps apart) or uniformly unweighted edges, every 7th history around a hub with 60..70 neighbours, with forced 'second edge, smaller / larger weight' steps in both orientations; after EVERY op the traversal lists (successors_vec / predecessors_vec) in the snapshot must equal the Model's min-weight adjacency and the neighbour sets by name and by position must equal the stored edge relation; at the end dijkstra::single_source from every node (and betweenness/closeness on every 3rd history) must equal the oracle fed with get_all_edges() only. Non-trivial = history added a second edge to an existing pair; distinct = distinct (specs, history) hashes.",
         "assumptions": COMMON + ["hook: Graph::verif_snapshot()", "weights are exact dyadic rationals so oracle and implementation sums are exact"],
-        "min_reach": {"any": ["reach:D:second-edge-smaller:KeepFirst", "reach:D:second-edge-larger:KeepFirst", "reach:D:second-edge-smaller:KeepLast", "reach:D:second-edge-larger:KeepLast", "reach:D:second-edge-smaller:multi", "reach:D:second-edge-larger:multi", "reach:U:second-edge-smaller:KeepFirst", "reach:U:second-edge-larger:KeepFirst", "reach:U:second-edge-smaller:KeepLast", "reach:U:second-edge-larger:KeepLast", "reach:U:second-edge-smaller:multi", "reach:U:second-edge-larger:multi"]},
+        "min_reach": {"any": ["reach:D:second-edge-smaller:KeepFirst", "reach:D:second-edge-larger:KeepFirst", "reach:D:second-edge-smaller:KeepLast", "reach:D:second-edge-larger:KeepLast", "reach:D:second-edge-smaller:multi", "reach:D:second-edge-larger:multi", "reach:U:second-edge-smaller:KeepFirst", "reach:U:second-edge-larger:KeepFirst", "reach:U:second-edge-smaller:KeepLast", "reach:U:second-edge-larger:KeepLast", "reach:U:second-edge-smaller:multi", "reach:U:second-edge-larger:multi", "reach:hub-with-60-or-more-neighbours"]},
     },
     "C09": {
         "level": "exploration",
-        "rule": "96 GraphSpecs x seeded histories with forced self-loops and parallel/opposite edges; at the end of each history counts, size, per-node and all-node (weighted) degrees, handshake identities, degree_centrality, density and the sparse adjacency matrix are compared with the Model's edge multiset. Non-trivial = final graph has >=1 edge; distinct = distinct (specs, history) hashes.",
+        "rule": "96 GraphSpecs x seeded histories with forced self-loops and parallel/opposite edges; every 960th history is a bulk graph (hub with 129..140 incident edges, more than 1000 connected pairs, 129+ parallel edges on multigraphs); at the end of each history counts, size, per-node and all-node (weighted) degrees, handshake identities, degree_centrality, density and the sparse adjacency matrix are compared with the Model's edge multiset. Non-trivial = final graph has >=1 edge; distinct = distinct (specs, history) hashes.",
         "assumptions": COMMON + ["weighted identities are only checked on histories whose weights are exact multiples of 0.25", "matrix non-zero pattern is not checked when a stored weight is 0"],
-        "min_reach": {"any": ["reach:directed-graph-with-self-loop", "reach:multigraph-with-parallel-edges", "reach:node-with-parallel-self-loops", "reach:matrix-undirected-name-order-differs-from-position-order"]},
+        "min_reach": {"any": ["reach:directed-graph-with-self-loop", "reach:multigraph-with-parallel-edges", "reach:node-with-parallel-self-loops", "reach:matrix-undirected-name-order-differs-from-position-order", "reach:bulk-graph-with-more-than-1000-pairs"]},
     },
     "C15": {
         "level": "exploration",
-        "rule": "96 GraphSpecs x graphs reached by seeded histories (so duplicate policies have acted) x get_subgraph over subsets of the universe + an absent name, reverse (twice), set_all_edge_weights over {NaN,0,1,2.5,-1,inf}, to_single_edges; each result is compared with the derived graph computed on the Model, its private indexes and traversal lists are checked and it then receives further mutations under the C01 monitor; the source graph's full observation vector is compared before/after. Non-trivial = source graph has >=1 edge; distinct = distinct (specs, history) hashes.",
+        "rule": "96 GraphSpecs x graphs reached by seeded histories (so duplicate policies have acted) (every 12th source graph also has 70..100 filler nodes and, on multigraphs, a pair with 129..135 parallel edges) x get_subgraph over subsets of the universe + an absent name and over small subsets of all nodes listed against graph order, reverse (twice), set_all_edge_weights over {NaN,0,1,2.5,-1,inf}, to_single_edges; each result is compared with the derived graph computed on the Model, its private indexes and traversal lists are checked and it then receives further mutations under the C01 monitor; the source graph's full observation vector is compared before/after. Non-trivial = source graph has >=1 edge; distinct = distinct (specs, history) hashes.",
         "assumptions": COMMON + ["hook: Graph::verif_snapshot()", "attributes of a collapsed edge and the order of edges inside the result are not part of the statement and are not compared"],
-        "min_reach": {"any": ["adopted-and-mutated:get_subgraph", "adopted-and-mutated:reverse", "adopted-and-mutated:set_all_edge_weights", "adopted-and-mutated:to_single_edges", "guard:reverse-on-undirected", "guard:to_single_edges-on-single", "reach:to_single_edges-collapsed-a-group"]},
+        "min_reach": {"any": ["adopted-and-mutated:get_subgraph", "adopted-and-mutated:reverse", "adopted-and-mutated:set_all_edge_weights", "adopted-and-mutated:to_single_edges", "guard:reverse-on-undirected", "guard:to_single_edges-on-single", "reach:to_single_edges-collapsed-a-group", "reach:small-subset-of-a-large-graph", "reach:source-graph-with-more-than-64-nodes"]},
     },
 }
 
 PROPS.update({
     "C04": {
         "level": "exploration",
-        "rule": "seeded graphs: 8 kinds x 14 families (G(n,p) at 3 densities, path, cycle, star, complete, grid, nested SCCs, many components, bipartite, barbell, tree, ladder) x weight classes {unweighted, exact k/4, exact wide, generic doubles, zero-containing}, optional self-loops / parallel edges, shuffled insertion order and names; n<=9 (every source, full path-set comparison) and every 8th case n in 21..60 (parallel branch; path counts). single_source / multi_source / all_pairs with (first_only, with_paths) in {(F,T),(T,T),(F,F)} are compared with exhaustive-relaxation distances and the enumerated set of all shortest paths computed from get_all_nodes()/get_all_edges() only. Non-trivial = graph has >=2 nodes and >=1 edge; distinct = distinct (kind, names, edge list) hashes.",
+        "rule": "seeded graphs: 8 kinds x 14 families (G(n,p) at 3 densities, path, cycle, star, complete, grid, nested SCCs, many components, bipartite, barbell, tree, ladder) x weight classes {unweighted, exact k/4, exact wide, generic doubles, zero-containing}, optional self-loops / parallel edges, shuffled insertion order and names; n<=9 (every source, full path-set comparison) and every 8th case n in 21..60 (parallel branch; path counts). single_source / multi_source / all_pairs with (first_only, with_paths) in {(F,T),(T,T),(F,F)} are compared with exhaustive-relaxation distances and the enumerated set of all shortest paths computed from get_all_nodes()/get_all_edges() only. Non-trivial = graph has >=2 nodes and >=1 edge; distinct = distinct (kind, names, edge list) hashes." + BOUNDARY,
         "assumptions": COMMON + ["generic (non-dyadic) weights: distances compared at 1e-9 relative, path sets only on graphs certified free of near-ties (gap > 1e-6)", "paths are node sequences: parallel edges do not multiply paths"],
         "min_reach": {"any": ["reach:target-with-several-shortest-paths", "reach:parallel-edges", "reach:self-loops", "reach:unreachable-pairs", "reach:n>20"]},
     },
     "C05": {
         "level": "exploration",
-        "rule": "seeded graphs as for C04 (n in 0..3, 3..12 and every 10th case 21..45) x {hop counts, positive weights} x {raw, normalized}; betweenness_centrality is compared (1e-9 relative) with the pair-dependency definition evaluated on all-pairs distances and path counts computed from get_all_edges() only. Non-trivial = n>=3 and >=1 edge; distinct = distinct graph hashes.",
+        "rule": "seeded graphs as for C04 (n in 0..3, 3..12 and every 10th case 21..45; every 120th case is a size sweep: 65..300/700 nodes, hubs with more than 64 neighbours, chains of 26..66 diamonds with up to 2^66 equally short paths; decimal / 1e-20-scale weight classes whose sums are ulps apart use an oracle that decides ties exactly as a label-setting search does) x {hop counts, positive weights} x {raw, normalized}; betweenness_centrality is compared (1e-9 relative) with the pair-dependency definition evaluated on all-pairs distances and path counts computed from get_all_edges() only. Non-trivial = n>=3 and >=1 edge; distinct = distinct graph hashes." + BOUNDARY,
         "assumptions": COMMON + ["generic-weight graphs are only used when certified tie-free", "shortest paths are counted as node sequences (parallel edges do not multiply paths)"],
-        "min_reach": {"any": ["reach:graph-with-tied-shortest-paths", "reach:n<=2", "reach:parallel-edges", "reach:self-loops", "reach:n>20"]},
+        "min_reach": {"any": ["reach:graph-with-tied-shortest-paths", "reach:n<=2", "reach:parallel-edges", "reach:self-loops", "reach:n>20", "reach:hub-with-more-than-64-neighbours", "reach:astronomic-path-counts"]},
     },
     "C06": {
         "level": "exploration",
-        "rule": "seeded graphs as for C05 x {hop counts, positive weights} x {wf_improved on, off}; closeness_centrality is compared (1e-9 relative) with (r-1)/sum of incoming distances computed from get_all_edges() only. Non-trivial = n>=2 and >=1 edge; distinct = distinct graph hashes.",
+        "rule": "seeded graphs as for C05 x {hop counts, positive weights} x {wf_improved on, off}; closeness_centrality is compared (1e-9 relative) with (r-1)/sum of incoming distances computed from get_all_edges() only. Non-trivial = n>=2 and >=1 edge; distinct = distinct graph hashes." + BOUNDARY,
         "assumptions": COMMON,
-        "min_reach": {"any": ["reach:directed-asymmetric-reachability", "reach:parallel-edges", "reach:self-loops", "reach:n>20"]},
+        "min_reach": {"any": ["reach:directed-asymmetric-reachability", "reach:parallel-edges", "reach:self-loops", "reach:n>20", "reach:hub-with-more-than-64-neighbours"]},
     },
     "C08": {
         "level": "exploration",
-        "rule": "seeded graphs (8 kinds, 14 families, n in 1..8, unweighted / exact / generic incl. decimal weights such as 0.2, 0.7) x every source x target in {None, each node} x cutoff in {None, every distinct distance, midpoints, beyond the maximum} x first_only x with_paths: each optioned single_source answer is compared with the unrestricted all-paths answer of the implementation itself; all_pairs and multi_source(all nodes) are compared with per-node single_source; undirected symmetry, triangle inequality and get_all_shortest_paths_involving are checked on the same answers. Non-trivial = n>=3 and >=1 edge; distinct = distinct graph hashes.",
+        "rule": "seeded graphs (8 kinds, 14 families, n in 1..8, unweighted / exact / generic incl. decimal weights such as 0.2, 0.7) x every source x target in {None, each node} x cutoff in {None, every distinct distance, midpoints, beyond the maximum} x first_only x with_paths: each optioned single_source answer is compared with the unrestricted all-paths answer of the implementation itself; all_pairs and multi_source(all nodes) are compared with per-node single_source; undirected symmetry, triangle inequality and get_all_shortest_paths_involving are checked on the same answers. Non-trivial = n>=3 and >=1 edge; distinct = distinct graph hashes." + BOUNDARY,
         "assumptions": COMMON + ["metamorphic: the implementation is compared with itself (absolute correctness of the unrestricted answer is C04's business)"],
         "min_reach": {"any": ["reach:involving-nonempty"]},
     },
@@ -71,47 +73,47 @@ PROPS.update({
 PROPS.update({
     "C10": {
         "level": "exploration",
-        "rule": "seeded graphs (8 kinds x 14 families incl. many small components, long cycles, nested SCCs, isolated nodes, self-loops, parallel edges; n in 0..12 and every 6th case 13..40/60), each rebuilt 3 times with fresh hash states. connected / weakly / strongly connected components are compared with the classes of the Warshall transitive closure of get_all_edges(); number_of_connected_components, node_connected_component (every node), breadth_first_search (every start node), bfs_equal_size_partitions (every k in 1..=n+2) and the WrongMethod guards are checked. Non-trivial = n>=2; distinct = distinct graph hashes.",
+        "rule": "seeded graphs (8 kinds x 14 families incl. many small components, long cycles, nested SCCs, isolated nodes, self-loops, parallel edges; n in 0..12 and every 6th case 13..40/60), each rebuilt 3 times with fresh hash states. connected / weakly / strongly connected components are compared with the classes of the Warshall transitive closure of get_all_edges(); number_of_connected_components, node_connected_component (every node), breadth_first_search (every start node), bfs_equal_size_partitions (every k in 1..=n+2) and the WrongMethod guards are checked; every 300th case has 63..192 nodes (multiples of 64 and their neighbours). Non-trivial = n>=2; distinct = distinct graph hashes." + BOUNDARY,
         "assumptions": COMMON,
-        "min_reach": {"any": ["reach:three-or-more-components", "reach:nontrivial-scc-structure", "guard:connected_components-on-directed", "guard:directed-components-on-undirected"]},
+        "min_reach": {"any": ["reach:three-or-more-components", "reach:nontrivial-scc-structure", "guard:connected_components-on-directed", "guard:directed-components-on-undirected", "reach:node-count-around-multiple-of-64"]},
     },
     "C11": {
         "level": "exploration",
-        "rule": "seeded single-edge graphs (directed/undirected, 14 families, n in 1..12, unweighted / exact / generic positive weights, self-loops always requested, isolated and degree-1 nodes) x {full node set, 8 random non-empty proper subsets incl. singletons}; clustering, average_clustering (count_zeros both ways), triangles, transitivity, generalized_degree and square_clustering are compared (1e-9 relative) with dense-matrix definitions (A^3 diagonal, Fagiolo, cube-root weights, Lind et al.); coefficients must lie in [0,1]; every 12th case is a multi-edge graph that must be refused with WrongMethod, directed graphs must be refused by the undirected-only functions. Non-trivial = n>=3 and >=2 edges; distinct = distinct graph hashes.",
+        "rule": "seeded single-edge graphs (directed/undirected, 14 families, n in 1..12, unweighted / exact / generic positive weights, self-loops always requested, isolated and degree-1 nodes) x {full node set, 8 random non-empty proper subsets incl. singletons}; clustering, average_clustering (count_zeros both ways), triangles, transitivity, generalized_degree and square_clustering are compared (1e-9 relative) with dense-matrix definitions (A^3 diagonal, Fagiolo, cube-root weights, Lind et al.); coefficients must lie in [0,1]; every 400th case has 101..130 nodes with subsets of 1..3 nodes; a quarter of the weighted graphs have all weights below 1, a sixth mix weights 20 orders of magnitude apart (values are compared relatively); every 12th case is a multi-edge graph that must be refused with WrongMethod, directed graphs must be refused by the undirected-only functions. Non-trivial = n>=3 and >=2 edges; distinct = distinct graph hashes.",
         "assumptions": COMMON + ["weighted graphs: self-loop weights are set to the smallest weight so that the normalising maximum is attained by a proper edge", "empty means (no counted coefficient) are not constrained", "square_clustering has no error channel: on directed graphs only C20 (no panic) applies"],
-        "min_reach": {"any": ["reach:proper-subset", "reach:graph-with-self-loops", "reach:undirected-graph-with-triangles", "guard:triangles-on-directed", "guard:clustering-on-multi"]},
+        "min_reach": {"any": ["reach:proper-subset", "reach:graph-with-self-loops", "reach:undirected-graph-with-triangles", "guard:triangles-on-directed", "guard:clustering-on-multi", "reach:graph-with-more-than-100-nodes", "reach:all-weights-below-1", "reach:weights-20-orders-of-magnitude-apart"]},
     },
     "C12": {
         "level": "exploration",
-        "rule": "(a) exhaustive small scope: for node sets of size 0..3 (thorough: 0..4, directed and undirected path graphs) every family of 1, 2 or 3 subsets of (nodes + one foreign name) is given to is_partition and compared with: pairwise disjoint, only graph nodes, covering; non-partitions of <=2 sets are also given to modularity, which must answer NotAPartition. (b) seeded graphs of all 8 kinds (n<=25, >=1 edge, weighted and unweighted) x random true partitions (sometimes with an empty community) x resolution in {0.25,0.5,1,1.5,2}: modularity vs Newman's formula computed from get_all_edges() (1e-9 relative); 4 near-partitions per graph (element duplicated / dropped / replaced by a foreign name / overlap and omission cancelling) must be rejected. Non-trivial = every case; distinct = distinct (graph, partition) hashes.",
+        "rule": "(a) exhaustive small scope: for node sets of size 0..3 (thorough: 0..4, directed and undirected path graphs) every family of 1, 2 or 3 subsets of (nodes + one foreign name) is given to is_partition and compared with: pairwise disjoint, only graph nodes, covering; non-partitions of <=2 sets are also given to modularity, which must answer NotAPartition. (b) seeded graphs of all 8 kinds (n<=25, >=1 edge, weighted and unweighted) x random true partitions (sometimes with an empty community) (every 250th graph has 63..192 nodes) x resolution in {0.25,0.5,1,1.5,2}: modularity vs Newman's formula computed from get_all_edges() (1e-9 relative); 4 near-partitions per graph (element duplicated / dropped / replaced by a foreign name / overlap and omission cancelling) must be rejected. Non-trivial = every case; distinct = distinct (graph, partition) hashes." + BOUNDARY,
         "assumptions": COMMON + ["an empty community does not stop a family from being a partition"],
-        "min_reach": {"any": ["exhaustive:is_partition-scope-completed", "reach:near-partition:overlap-and-omission-cancel", "reach:near-partition:element-replaced-by-foreign-name", "reach:modularity-with-self-loops", "reach:parallel-edges-inside-a-community"]},
+        "min_reach": {"any": ["exhaustive:is_partition-scope-completed", "reach:near-partition:overlap-and-omission-cancel", "reach:near-partition:element-replaced-by-foreign-name", "reach:modularity-with-self-loops", "reach:parallel-edges-inside-a-community", "reach:node-count-around-multiple-of-64"]},
     },
     "C13": {
         "level": "exploration",
-        "rule": "seeded graphs with >=1 edge: all 8 kinds, G(n,p)/paths/cycles/cliques/..., rings of 3..14 cliques (every 200th case 40..100 cliques, n up to 400) and directed cycles/paths; unweighted and exact weights; seeds 0..999, resolution in {0.3,0.7,1,1.5,2}, threshold in {0,1e-7,1e-2,0.5}. louvain_partitions runs under a logical step budget (sweeps <= 200+20n, level iterations <= n+8, counted by the verif-hooks tick at the top of both loops); every level must be a partition into non-empty sets, a coarsening of the previous level, and on single-edge graphs modularity (oracle, same flag and resolution) must not decrease from the singleton partition onwards; louvain_communities must equal the last level. Non-trivial = every run; distinct = distinct (graph, options) hashes.",
+        "rule": "seeded graphs with >=1 edge: all 8 kinds, G(n,p)/paths/cycles/cliques/..., rings of 3..14 cliques (every 200th case 40..100 cliques, n up to 400) and directed cycles/paths; half of the cases are small (4..12 nodes) graphs with integer weights 1..5 and self-loops; unweighted, exact and generic weights; seeds 0..999 plus u64::MAX, u64::MAX-1, 2^63; resolution from {0.3,0.7,1,1.5,2} or uniform in (0.05,2]; threshold in {0,1e-7,1e-2,0.5}; 240 000 (quick) / 3 000 000 (thorough) runs. louvain_partitions runs under a logical step budget (sweeps <= 200+20n, level iterations <= n+8, counted by the verif-hooks tick at the top of both loops); every level must be a partition into non-empty sets, a coarsening of the previous level, and on single-edge graphs modularity (oracle, same flag and resolution) must not decrease from the singleton partition onwards; louvain_communities must equal the last level. Non-trivial = every run; distinct = distinct (graph, options) hashes." + BOUNDARY,
         "assumptions": COMMON + ["hook: verif_hooks::tick in the Louvain sweep and level loops; termination is decided as bounded progress on logical steps, the wall clock is never a verdict", "modularity monotonicity is checked with absolute slack 1e-9"],
         "min_reach": {"any": ["reach:two-or-more-levels", "reach:three-or-more-levels", "reach:directed-run", "reach:multi-edge-run", "reach:self-loop-run"]},
     },
     "C18": {
         "level": "exploration",
-        "rule": "seeded single-edge graphs (directed/undirected, 14 families incl. bipartite/periodic graphs, DAGs and edgeless graphs, n in 1..25/40, unweighted / exact / generic / zero-containing non-negative weights, self-loops) x tolerance in {1e-12,1e-9,1e-6,1e-3,1e-2} x max_iter in {1,2,5,100,1000,k*-1,k*,k*+1} where k* is the iteration at which an independent dense implementation of the documented update meets the documented criterion. Ok results: one entry per node, non-negative, |norm-1|<=1e-9, one more documented step moves the vector by <= 2*sqrt(n)*||I+A^T||_F*n*tol, and max_iter >= k*; Err results: kind PowerIterationFailedConvergence and max_iter < k* (cases where the criterion is within 1e-6 relative of the threshold are skipped as ambiguous). Non-trivial = n>=2 and >=1 edge; distinct = distinct (graph, weighted, tolerance) hashes.",
+        "rule": "seeded single-edge graphs (directed/undirected, 14 families incl. bipartite/periodic graphs, DAGs and edgeless graphs, n in 1..25/40, unweighted / exact / generic / zero-containing non-negative weights, self-loops; every 400th case has 257..513 nodes) x tolerance in {1e-12,1e-9,1e-6,1e-3,1e-2} x max_iter in {1,2,5,100,1000,k*-1,k*,k*+1} where k* is the iteration at which an independent dense implementation of the documented update meets the documented criterion. Ok results: one entry per node, non-negative, |norm-1|<=1e-9, one more documented step moves the vector by <= 2*sqrt(n)*||I+A^T||_F*n*tol, and max_iter >= k*; Err results: kind PowerIterationFailedConvergence and max_iter < k* (cases where the criterion is within 1e-6 relative of the threshold are skipped as ambiguous). Non-trivial = n>=2 and >=1 edge; distinct = distinct (graph, weighted, tolerance) hashes.",
         "assumptions": COMMON + ["the documented iteration (start vector 1/n, update x + A^T x, L2 normalisation, L1 change < n*tol) is the reference for the convergence contract"],
-        "min_reach": {"any": ["reach:converged", "reach:exhausted-max_iter", "reach:self-loops"]},
+        "min_reach": {"any": ["reach:converged", "reach:exhausted-max_iter", "reach:self-loops", "reach:more-than-256-nodes"]},
     },
 })
 
 PROPS.update({
     "C14": {
         "level": "exploration",
-        "rule": "seeded graphs of all 8 kinds (permissive policies) over Unicode names (XML specials, entity look-alikes, ]]>, <!--, quotes, leading/trailing/inner spaces, empty string, Latin-1, CJK, astral emoji, combining marks, RTL, U+00A0, U+2028, random scalar values; control characters and non-characters excluded) and weights from bit-pattern classes (+-0, subnormals, min/max normal, 1e308 scale, +-inf, 17-significant-digit values at extreme magnitudes, random non-NaN bit patterns), unweighted / weighted / mixed, self-loops and parallel edges. write_graphml_string then read_graphml_string with the same specs must reproduce node names and order, directedness and the edge multiset with bit-identical weights; every 4th case also writes a file, compares its bytes with the string variant and reads it back. Non-trivial = graph has >=1 edge; distinct = distinct (kind, names, edges) hashes.",
+        "rule": "seeded graphs of all 8 kinds (permissive policies) over Unicode names (XML specials, entity look-alikes, ]]>, <!--, quotes, leading/trailing/inner spaces, empty string, Latin-1, CJK, astral emoji, combining marks, RTL, U+00A0, U+2028, random scalar values; control characters and non-characters excluded) and weights from bit-pattern classes (+-0, subnormals, min/max normal, 1e308 scale, +-inf, 17-significant-digit values at extreme magnitudes, random non-NaN bit patterns), unweighted / weighted / mixed, self-loops and parallel edges; names also contain literal entity texts (&quot;, &apos;, &amp;quot;); weights also 20-digit integers; every 600th graph has 1001..1300 edges. write_graphml_string then read_graphml_string with the same specs must reproduce node names and order, directedness and the edge multiset with bit-identical weights; every 4th case also writes a file (two alternating paths, so shorter documents overwrite longer files), compares its bytes with the string variant and reads it back. Non-trivial = graph has >=1 edge; distinct = distinct (kind, names, edges) hashes.",
         "assumptions": COMMON + ["files are written to a per-process directory under /verif/.work and removed"],
-        "min_reach": {"any": ["reach:xml-special-characters-in-names", "reach:non-ascii-names", "reach:extreme-magnitude-weights", "reach:infinite-weights", "reach:file-variant"]},
+        "min_reach": {"any": ["reach:xml-special-characters-in-names", "reach:non-ascii-names", "reach:extreme-magnitude-weights", "reach:infinite-weights", "reach:file-variant", "reach:more-than-1000-edges", "reach:shorter-document-saved-over-longer-file"]},
     },
     "C19": {
         "cpu_budget": 20,
         "level": "fault_enumeration",
-        "rule": "(a) grammar-generated GraphML documents, half of them hostile (keys without for/id, duplicated attributes, unknown entities, non-numeric / escaped / CDATA / padded weight text, data before, after and outside edges, nested elements inside data, empty <graph/>, several graphs, missing attributes, trailing garbage); (b) fault enumeration: for each well-formed base document of 150-700 bytes EVERY prefix truncation, EVERY single-byte deletion, EVERY single-byte duplication, one bit flip per byte (kept if still UTF-8), every tag deletion and duplication; (c) hand-picked hostile fragments and 10^3..10^5-deep nesting. Each document is read under 6 GraphSpecs with catch_unwind, a logical step budget of len+16 event-loop iterations (verif-hooks tick) and abort attribution; Ok(graph) is compared with an independent scan of the same text (own quick-xml event loop) replayed on the reference Model. Non-trivial = every document; distinct = distinct base documents / fragments (variants are counted in fault-variants).",
+        "rule": "(a) grammar-generated GraphML documents, half of them hostile (keys without for/id, duplicated attributes, unknown entities, non-numeric / escaped / CDATA / padded weight text, data before, after and outside edges, nested elements inside data, empty <graph/>, several graphs, missing attributes, trailing garbage, 20-digit and malformed numeric weight text, parse.nodes / parse.edges hints up to 2^64, numeric text under non-weight keys, empty weight data); (b) fault enumeration: for each well-formed base document of 150-700 bytes EVERY prefix truncation, EVERY single-byte deletion, EVERY single-byte duplication, one bit flip per byte (kept if still UTF-8), every tag deletion and duplication; (c) hand-picked hostile fragments and 10^3..10^5-deep nesting. Each document is read under 6 GraphSpecs with catch_unwind, a logical step budget of len+16 event-loop iterations (verif-hooks tick) and abort attribution; Ok(graph) is compared with an independent scan of the same text (own quick-xml event loop) replayed on the reference Model. Non-trivial = every document; distinct = distinct base documents / fragments (variants are counted in fault-variants).",
         "assumptions": COMMON + ["the quick-xml tokenizer is shared with graphrs and trusted", "content is only compared where the statement fixes the meaning: documents the tokenizer rejects, unreadable attributes, several graph elements and misplaced / CDATA / late-declared weight data are checked for totality (and node/edge identity where possible) only", "the fault space enumerated per base document is complete for truncation, byte deletion and byte duplication; bit flips are one seeded bit per byte"],
         "min_reach": {"any": ["fault-bases-fully-enumerated", "fault-variants", "outcome:ok", "outcome:err", "content-compared:graph-matches-document"]},
     },
@@ -120,16 +122,16 @@ PROPS.update({
 PROPS.update({
     "C16": {
         "level": "exploration",
-        "rule": "complete_graph for EVERY n in 0..=60 (plus 100, 129; thorough adds 64..300 around powers of two) and both kinds: node set {0..n-1}, exactly one edge per (un)ordered pair. karate_club_graph against the reference 78-edge Zachary edge list. fast_gnp_random_graph: n in {0,1,2,3,5,10,30,60 | 100,300} x p in {1e-12,1e-9,1e-6,0.01,0.1,0.3,0.5,0.9,0.999999} x both kinds x 60 (200) seeds: Ok, node set {0..n-1}, no self-loop, no repeated pair, and |mean edge count - p*N| <= p*N/(n-1) + 6*sqrt(N p (1-p)/S); n in 2..=6 at p=0.5 over 400 seeds: every possible pair occurs; p in {1e-9,3e-10,1e-10} x n in {3,30,300} over 3000 (40000) seeds (huge skips); p in {0,1,-0.1,1.5,NaN,inf,-0.0,1+ulp} must give InvalidArgument. Non-trivial = every configuration; distinct = distinct configurations.",
+        "rule": "complete_graph for EVERY n in 0..=60 (plus 100, 129; thorough adds 64..300 around powers of two) and both kinds: node set {0..n-1}, exactly one edge per (un)ordered pair. karate_club_graph against the reference 78-edge Zachary edge list. 400 unseeded (seed=None) draws at n=5, p=0.5 must cover every pair and give >= 20 distinct graphs; fast_gnp_random_graph: n in {0,1,2,3,5,10,30,60 | 100,300} x p in {1e-12,1e-9,1e-6,0.01,0.1,0.3,0.5,0.9,0.999999} x both kinds x 60 (200) seeds: Ok, node set {0..n-1}, no self-loop, no repeated pair, and |mean edge count - p*N| <= p*N/(n-1) + 6*sqrt(N p (1-p)/S); n in 2..=6 at p=0.5 over 400 seeds: every possible pair occurs; p in {1e-9,3e-10,1e-10} x n in {3,30,300} over 20000 (100000) seeds (huge skips); p in {0,1,-0.1,1.5,NaN,inf,-0.0,1+ulp} with n in {0,1,2,10} must give InvalidArgument. Non-trivial = every configuration; distinct = distinct configurations.",
         "assumptions": COMMON + ["statistical test: the property's own 1/(n-1) relative allowance plus a 6-sigma sampling term (false-alarm probability about 2e-9 per configuration for a correct G(n,p)); deterministic per VERIF_SEED"],
-        "min_reach": {"any": ["complete_graph:checked", "karate:checked", "gnp:invalid-p-rejected", "gnp:mean-tested-configurations", "gnp:pair-occurrence-configurations", "gnp:tiny-p-configurations"]},
+        "min_reach": {"any": ["complete_graph:checked", "karate:checked", "gnp:invalid-p-rejected", "gnp:mean-tested-configurations", "gnp:pair-occurrence-configurations", "gnp:tiny-p-configurations", "gnp:unseeded-draws-checked"]},
     },
     "C17": {
         "custom": "c17",
         "level": "exploration",
-        "rule": "case list: seeded fast_gnp_random_graph (n up to 600), seeded louvain_partitions / louvain_communities on tie-rich graphs (paths, cycles, complete, bipartite, grids, ladders, stars, barbells, plus G(n,p); unweighted or exact weights so that every difference is a tie-break effect), and the discrete outputs of non-randomised algorithms (all_pairs distances bits + path sets, components, triangles, generalized degree, bfs partitions). Each case is repeated 10 (30) times in one process - the graph is rebuilt each time so every hash table is re-keyed, and repetitions run under caller-installed rayon pools of 1, 2, 3 and 16 threads - and its canonical result (sets of sets, sorted) must not change; then 3 (6) passes of fresh processes with RAYON_NUM_THREADS in {1,2,16,...} compute a digest per (case, function) and the digests must agree. Non-trivial = every case; distinct = distinct case indexes.",
+        "rule": "case list: seeded fast_gnp_random_graph (n up to 600), seeded louvain_partitions / louvain_communities on tie-rich graphs (paths, cycles, complete, bipartite, grids, ladders, stars, barbells, plus G(n,p); unweighted, exact, symmetric-pattern, generic and 2^520-scaled weights; seeds incl. u64::MAX, u64::MAX-1, 2^63), and the discrete outputs of non-randomised algorithms (all_pairs distances bits + path sets, components, triangles, generalized degree, bfs partitions). Each case is repeated 10 (30) times in one process - the graph is rebuilt each time so every hash table is re-keyed, and repetitions run under caller-installed rayon pools of 1, 2, 3 and 16 threads - and its canonical result (sets of sets, sorted) must not change; then 3 (6) passes of fresh processes with RAYON_NUM_THREADS in {1,2,16,...} compute a digest per (case, function) and the digests must agree. Non-trivial = every case; distinct = distinct case indexes.",
         "assumptions": COMMON + ["floating-point outputs of non-randomised algorithms are not part of the cross-process digests (rounding of sums is allowed by the statement); Louvain is only run on unweighted or exact-dyadic weights", "hash iteration order cannot be forced; reach comes from re-keying (every HashMap::new draws new keys) across 10-30 repetitions and 3-6 processes"],
-        "min_reach": {"any": ["reach:louvain-on-tie-rich-graph", "reach:call-under-pool-of-16-threads", "reach:call-under-pool-of-1-threads", "reach:fresh-processes-compared", "cases:kind0"]},
+        "min_reach": {"any": ["reach:louvain-on-tie-rich-graph", "reach:call-under-pool-of-16-threads", "reach:call-under-pool-of-1-threads", "reach:fresh-processes-compared", "cases:kind0", "reach:louvain-with-huge-dyadic-weights"]},
     },
 })
 
@@ -138,9 +140,9 @@ PROPS.update({
         "custom": "c20",
         "cpu_budget": 10,
         "level": "exploration",
-        "rule": "an explicit table of ~100 public functions (Graph queries, degrees, density, matrix, derived graphs, ensure_*, every function of algorithms::*, generators, GraphML I/O, Edge/Node/GraphSpecs constructors, mutation entry points) with argument recipes: every existing node / pair, one absent name for functions with a Result/Option channel, weighted in {false,true}, k in {1,2,n,n+1}, partitions in {singletons, whole, foreign-name, overlapping}. Graphs: EXHAUSTIVE small scope - for each of the 8 kinds every graph on n<=2 (quick) / n<=3 (thorough) nodes (all subsets of the allowed pairs incl. loops; multi-edge kinds also doubled edges) x {unweighted, weighted} - plus named degenerate shapes and random graphs (n<=12; self-loop-only, parallel-only, stars, paths, components, ...). Every call runs under catch_unwind, the Louvain step budget and the CPU watchdog, in two builds (checked: overflow checks + debug assertions; plain release); per-case digests of all returned values are compared across the builds. Non-trivial = every graph; distinct = distinct graph hashes.",
+        "rule": "an explicit table of ~100 public functions (Graph queries, degrees, density, matrix, derived graphs, ensure_*, every function of algorithms::*, generators, GraphML I/O, Edge/Node/GraphSpecs constructors, mutation entry points) with argument recipes: every existing node / pair, one absent name for functions with a Result/Option channel, weighted in {false,true}, k in {1,2,n,n+1}, partitions in {singletons, whole, foreign-name, overlapping}. Graphs: EXHAUSTIVE small scope - for each of the 8 kinds every graph on n<=2 (quick) / n<=3 (thorough) nodes (all subsets of the allowed pairs incl. loops; multi-edge kinds also doubled edges) x {unweighted, weighted} - plus named degenerate shapes and random graphs (n<=12; self-loop-only, parallel-only, stars, paths, components, ...), plus threshold shapes: 21..40-node graphs whose parallel functions run inside a 48-thread pool (more workers than nodes) and chains of 62..66 diamonds (2^62..2^66 equally short paths). Every call runs under catch_unwind, the Louvain step budget and the CPU watchdog, in two builds (checked: overflow checks + debug assertions; plain release); per-case digests of all returned values are compared across the builds. Non-trivial = every graph; distinct = distinct graph hashes.",
         "assumptions": COMMON + ["functions without an error channel are only called with names that exist", "weights are positive or NaN (negative weights are outside the property)", "no value oracle here (values are C02-C18's business); only totality and cross-build agreement"],
-        "min_reach": {"any": ["exhaustive:scope-completed", "exhaustive:DML:n2", "exhaustive:USN:n2", "shapes:star", "reach:cases-compared-across-builds"]},
+        "min_reach": {"any": ["exhaustive:scope-completed", "exhaustive:DML:n2", "exhaustive:USN:n2", "shapes:star", "reach:cases-compared-across-builds", "shapes:more-worker-threads-than-nodes", "shapes:diamond-chain-2^62-paths"]},
         "exhaustive": False,
     },
 })
@@ -149,7 +151,7 @@ PROPS.update({
     "C07": {
         "custom": "c07",
         "level": "exploration",
-        "rule": "seeded graphs with n in 21..80 (thorough: ..150), directed/undirected, multi-edge and self-loop kinds, generic non-dyadic weights (so that an order-dependent float reduction changes low bits), unweighted and exact weights. Reference = all_pairs (4 option variants incl. target and cutoff), multi_source (2), get_all_shortest_paths_involving, betweenness (raw, normalized), closeness (plain, wf) inside a 1-thread pool (the code's own serial branch). Candidates = caller-installed pools of {2,3,4,8,16} (thorough: 1..=16) threads x 4 (12) repetitions with seeded 0-700us delays injected by the verif-hooks par_item hook at the start of every work item, the global pool, a call from inside the caller's own par_iter, and 6 scoped threads reading the same &Graph concurrently; every distance bit pattern, sorted path list and centrality bit pattern must equal the reference. The hook logs (item, worker, start order); evidence reports the number of distinct item->worker assignments and start orders seen per pool size. Thorough adds the same light workload under a ThreadSanitizer build (-Zsanitizer=thread -Zbuild-std) and 8 Miri runs (Tree Borrows, data-race detection, different scheduler seeds) of a 22-node workload. Non-trivial = every graph; distinct = distinct graph hashes.",
+        "rule": "seeded graphs with n in 21..80 (thorough: ..150), directed/undirected, multi-edge and self-loop kinds, generic non-dyadic weights (so that an order-dependent float reduction changes low bits), unweighted and exact weights. Reference = all_pairs (4 option variants incl. target and cutoff), multi_source (2), get_all_shortest_paths_involving, betweenness (raw, normalized), closeness (plain, wf) inside a 1-thread pool (the code's own serial branch). A quarter of the graphs (and the first six cases always) are threshold shapes: a hub with exactly 63/64/65 successors, 255..300 nodes, 21..24 nodes. Candidates = caller-installed pools of {2,3,4,8,16,32,48} (thorough: 1..=16, 32, 48) threads x 4 (12) repetitions with seeded 0-700us delays injected by the verif-hooks par_item hook at the start of every work item, the global pool, a call from inside the caller's own par_iter, and 6 scoped threads reading the same &Graph concurrently; every distance bit pattern, sorted path list and centrality bit pattern must equal the reference. The hook logs (item, worker, start order); evidence reports the number of distinct item->worker assignments and start orders seen per pool size. Thorough adds the same light workload under a ThreadSanitizer build (-Zsanitizer=thread -Zbuild-std) and 8 Miri runs (Tree Borrows, data-race detection, different scheduler seeds) of a 22-node workload. Non-trivial = every graph; distinct = distinct graph hashes.",
         "assumptions": COMMON + ["hook: verif_hooks::par_item (first statement of each rayon work item): the closures hold no lock and touch no shared mutable state, so a delay there only produces schedules the program can already have", "schedules are sampled, not enumerated"],
         "min_reach": {"any": ["reach:parallel-work-items-observed", "reach:two-or-more-distinct-schedules-for-a-pool-size", "reach:global-pool-run", "reach:nested-call", "reach:concurrent-readers"]},
     },
